@@ -34,11 +34,20 @@ def run(ctx):
         if i % 6 == 0:
             p["max_buckets"] = 1
         xs = shifty_stream(rng, ln, seg=(20, 120), grid=rng.choice([None, None, 0.25]))
+        if i % 8 == 3:
+            # integer counters of large magnitude (ids, byte counts, timestamps), handed over as ints by most containers
+            # all values lie in [base, base + spread] with spread <= base: the floating-point noise of ADWIN's accumulated variance
+            # (~1e-13 * n * magnitude^2) then stays far below both the variance tolerance and every cut decision
+            base, spread = rng.choice([(10 ** 9, 10 ** 9), (3 * 10 ** 9, 10 ** 9), (10 ** 7, 10 ** 7), (10 ** 12, 10 ** 11)])
+            lo, hi = min(xs), max(xs)
+            xs = [float(int(base + spread * (x - lo) / (hi - lo))) for x in xs]
         script = [("update", x) for x in xs]
         for _ in range(rng.randint(0, 2)):
             script.insert(rng.randrange(len(script)), ("reset",))
         for _ in range(rng.randint(0, 2)):
             script.insert(rng.randrange(1, len(script)), ("bad", rng.choice([np.array([[1.0, 2.0]]), [[1.0], [2.0]]])))
+        if i % 3 == 0:      # the very first call is refused by ADWIN's own one-variable guard
+            script.insert(0, ("bad", rng.choice([np.array([[1.0, 2.0]]), [3.0, 4.0], pd.DataFrame({"a": [1.0], "b": [2.0]})])))
         w = draw_wrap(rng)             # scalars, lists, arrays, frames, series, views of a reused buffer - one kind or a mix per stream
         t = D.run(p, script, wrap_of(w))
         t["wrap"] = w
